@@ -3,7 +3,7 @@
 
    Vocabulary (C19/Model.v, C19/Broadcast.v).  [cs] = the calls (kind, serial), [cap] = capacity of the method-return channel,
    [t] = a method timeout is configured.  [reach cs cap t tr s]: state s is reached by the history tr of atomic actions
-     LSub i (activate_cloned), LLock i / LSend i ok (send), LRecv i (the caller takes one item from its stream), LTimeout i
+     LSub i (activate_cloned), LLock i / LSend i ok (send; LWire i then LRet i when the bytes are out before send_message returns), LRecv i (the caller takes one item from its stream), LTimeout i
      (its timer fires), LRead / LPush / LNext (socket reader: read one item, one broadcast_direct, end of the fan-out),
      LArrive it (the peer/transport delivers a message or a failure; a message carrying the serial of one of our calls as
      reply_serial only after that call was written).
@@ -37,9 +37,10 @@ Theorem C19_once_stable : forall tr s s' i r, exec tr s = Some s' -> st_at s i =
 Proof. exact Invariants.done_exec. Qed.
 Print Assumptions C19_once_stable.
 
-(* subscription precedes the send and an answer can only follow the send: no answer to a waiting caller lies behind its cursor *)
+(* subscription precedes the send and an answer can only follow the send: no answer to a caller whose call is on the wire — waiting,
+   or still inside send() (CWritten: bytes out, send_message has not returned) — lies behind its cursor *)
 Theorem C19_sees_nothing_missed : forall cs cap t tr s i c p q m,
-  reach cs cap t tr s -> nth_error (callers s) i = Some c -> c_st c = CWaiting -> cursor (ch s) i = Some p ->
+  reach cs cap t tr s -> nth_error (callers s) i = Some c -> (c_st c = CWaiting \/ c_st c = CWritten) -> cursor (ch s) i = Some p ->
   nth_error (log (ch s)) q = Some (IMsg m) -> answers m (c_serial c) = true -> p <= q.
 Proof. exact nothing_missed. Qed.
 Print Assumptions C19_sees_nothing_missed.
@@ -70,6 +71,11 @@ Theorem C19_noreply : forall s i c, nth_error (callers s) i = Some c -> c_st c =
   exists s', step (LSend i true) s = Some s' /\ st_at s' i = Some (CDone RNoReply).
 Proof. exact noreply_completes. Qed.
 Print Assumptions C19_noreply.
+
+Theorem C19_noreply_late : forall s i c, nth_error (callers s) i = Some c -> c_st c = CWritten -> c_kind c = KNoReply ->
+  exists s', step (LRet i) s = Some s' /\ st_at s' i = Some (CDone RNoReply).
+Proof. exact noreply_completes_late. Qed.
+Print Assumptions C19_noreply_late.
 
 (* connection failure: once the socket reader has stopped, a waiting caller that takes more items than the channel ever held
    has completed (with its answer if that was broadcast before the failure, else with the error / BrokenPipe) *)
@@ -103,7 +109,7 @@ Print Assumptions C19_no_timeout_unless_configured.
 Definition C19_full_statement : Prop :=
   forall cs cap0 t tr s i c m rest, reach cs cap0 t tr s ->
     reader s = RIdle -> socket s = IMsg m :: rest ->
-    nth_error (callers s) i = Some c -> c_st c = CWaiting -> answers m (c_serial c) = true -> qlen (ch s) < cap (ch s) ->
+    nth_error (callers s) i = Some c -> (c_st c = CWaiting \/ c_st c = CWritten) -> answers m (c_serial c) = true -> qlen (ch s) < cap (ch s) ->
     exists s', exec [LRead; LPush; LNext] s = Some s' /\ log (ch s') = log (ch s) ++ [IMsg m] /\ reader s' = RIdle /\ socket s' = rest.
 
 (* the decidable class: the history contains such a subscription *)
@@ -112,7 +118,7 @@ Definition Known_C19 (tr : list label) : bool := existsb (fun l => match l with 
 Theorem C19_delivery_partial :
   forall cs cap0 t tr s i c m rest, reach cs cap0 t tr s -> Known_C19 tr = false ->
     reader s = RIdle -> socket s = IMsg m :: rest ->
-    nth_error (callers s) i = Some c -> c_st c = CWaiting -> answers m (c_serial c) = true -> qlen (ch s) < cap (ch s) ->
+    nth_error (callers s) i = Some c -> (c_st c = CWaiting \/ c_st c = CWritten) -> answers m (c_serial c) = true -> qlen (ch s) < cap (ch s) ->
     exists s', exec [LRead; LPush; LNext] s = Some s' /\ log (ch s') = log (ch s) ++ [IMsg m] /\ reader s' = RIdle /\ socket s' = rest.
 Proof. exact delivery_partial_stated. Qed.
 Print Assumptions C19_delivery_partial.
@@ -134,3 +140,9 @@ Print Assumptions C19_hijacked_returns_lost_for_ever.
 Theorem C19_run_sound : forall cs cap t tr s, exec tr (init cs cap t) = Some s -> reach cs cap t tr s.
 Proof. exact exec_reach. Qed.
 Print Assumptions C19_run_sound.
+
+(* the reply is handled completely by the socket reader between "bytes out" and "send() returns", no other call pending:
+   the caller still gets it (a call_method_raw that activated its receiver only after the send would lose it) *)
+Example C19_reply_before_send_returns :
+  exists s, exec early_trace (init early_cs 8 false) = Some s /\ st_at s 0 = Some (CDone (ROk early_reply)) /\ done_log s = [(0, ROk early_reply)].
+Proof. exact early_reply_received. Qed.
